@@ -10,7 +10,7 @@ License: 3-clause BSD. (See the COPYRIGHT file)
 
 from __future__ import annotations
 
-from typing import TYPE_CHECKING, Iterator, Sequence
+from typing import ClassVar, TYPE_CHECKING, Iterator, Sequence
 
 from exabgp.util.types import Buffer
 
@@ -35,6 +35,8 @@ class Communities(Attribute):
 
     ID = Attribute.CODE.COMMUNITY
     FLAG = Attribute.Flag.TRANSITIVE | Attribute.Flag.OPTIONAL
+    # RFC 7606 7.8: a malformed COMMUNITIES attribute calls for treat-as-withdraw
+    TREAT_AS_WITHDRAW: ClassVar[bool] = True
 
     def __init__(self, packed: Buffer = b'') -> None:
         """Initialize from packed wire-format bytes.
